@@ -272,4 +272,19 @@ PROPS = {
                 "streaming with >=2 messages in some direction, or a failure point, or -bin/multi-valued metadata; distinct = the whole script.",
         "assumptions": ["with the HTTP/JSON front only response messages and, for failures before the first response, the status are compared"],
     },
+    "C11": {
+        "pkg": "c11",
+        "stages": [{"run": "^TestProp$", "quick": (60, 4), "thorough": (600, 16), "timeout": {"quick": 900, "thorough": 5400}},
+                   {"run": "^TestPropExhaustive$", "quick": (1, 4), "thorough": (1, 16), "timeout": {"quick": 900, "thorough": 5400}}],
+        "technique": "model-based property testing (rapid-generated and exhaustively enumerated operation histories) against an in-memory registration model, with tagged real backends and probes after every step",
+        "level_text": "Histories of RegisterConn / DropConn / RegisterService(local) / re-registration / drop of an unknown connection / registration after the backend's service set changed, over three "
+                      "real reflection-enabled backends and a local implementation that expose overlapping and disjoint services; after every step 12 probes per service (HTTP annotation route, "
+                      "HTTP implicit route, gRPC) must be answered by a member of the model's owner set, or unimplemented when it is empty; dropped backends must see no further request; return "
+                      "values are checked. Exhaustive up to a length bound, random beyond. Exploration with an enumerated sub-space.",
+        "level_note": "The handler pick among several owners is random inside larking, hence 12 probes per service and a set-membership oracle; histories are generated as operation lists executed against "
+                      "the model with the invariant checked after every step (equivalent to rapid's state-machine mode, but directly replayable as JSON).",
+        "rule": "TestProp: rapid draws 1-8 (thorough 1-20) operations from a 9-operation alphabet; TestPropExhaustive: all histories of length <= 2 (thorough <= 4: 7380). Non-trivial = history "
+                "containing a drop after a register, two owners for one method, or a re-registration; distinct = the operation sequence.",
+        "assumptions": ["stale routes of fully dropped methods may answer Unimplemented or NotFound"],
+    },
 }
